@@ -80,11 +80,11 @@ func coincidences(B int, r *tr.Rand) []wordBlock {
 			add("xor", a, a)
 			add("and", a, ^a)
 		}
-		add("sum", 1, ones)    // 01 00*7 ff*8
-		add("sum", ones, 1)    // ff*8 01 00*7
-		add("sum", top, top)   // two bytes 0x80 exactly 8 apart at the top of their words
-		add("and", 1, 2)       // single bottom bits
-		add("and", top, 1)     // top bit, bottom bit
+		add("sum", 1, ones)  // 01 00*7 ff*8
+		add("sum", ones, 1)  // ff*8 01 00*7
+		add("sum", top, top) // two bytes 0x80 exactly 8 apart at the top of their words
+		add("and", 1, 2)     // single bottom bits
+		add("and", top, 1)   // top bit, bottom bit
 		add("and", 0xffffffff, 0xffffffff00000000)
 		add("product", 1<<32, 1<<32)
 		add("product", top, 2)
